@@ -74,3 +74,50 @@ Lemma refuted_f10b_frame :
   disjoint_tables g_f10b h_f10b_all = false /\
   outs_in g_f10b h_f10b_all (run_out init h_f10b_all) <> run_out init (proj g_f10b h_f10b_all).
 Proof. split; [vm_compute; reflexivity | refute]. Qed.
+
+(* ---- transparency with only the needed definitions: C06 + C07 combined *)
+Lemma run_app s h h2 : run s (h ++ h2) = run (run s h) h2.
+Proof. unfold run. apply fold_left_app. Qed.
+
+Lemma run_out_app s h o : run_out s (h ++ [o]) = run_out s h ++ [snd (step (run s h) o)].
+Proof.
+  revert s. induction h as [|a r IH]; intro s.
+  - cbn. destruct (step s o); reflexivity.
+  - cbn [app]. rewrite !run_out_cons, IH. reflexivity.
+Qed.
+
+Lemma run_out_length s h : List.length (run_out s h) = List.length h.
+Proof. revert s. induction h as [|a r IH]; intro s; [reflexivity|]. rewrite run_out_cons. cbn. now rewrite IH. Qed.
+
+Lemma outs_in_app inG h o : forall outs x, List.length outs = List.length h -> op_in inG o = true ->
+  outs_in inG (h ++ [o]) (outs ++ [x]) = outs_in inG h outs ++ [x].
+Proof.
+  induction h as [|a r IH]; intros outs x Hl Ho.
+  - destruct outs; [|discriminate]. cbn. now rewrite Ho.
+  - destruct outs as [|y outs]; [discriminate|]. cbn in Hl. inversion Hl as [Hl'].
+    cbn [app outs_in]. destruct (op_in inG a); [cbn; f_equal|]; now apply IH.
+Qed.
+
+Lemma proj_app inG h o : op_in inG o = true -> proj inG (h ++ [o]) = proj inG h ++ [o].
+Proof. intro H. unfold proj. rewrite filter_app. cbn. now rewrite H. Qed.
+
+(* the outcome of an operation after any history equals its outcome in a fresh state holding only the
+   definitions and bindings of its own class family (the classes it needs) *)
+Lemma transparent_needed inG h o :
+  op_in inG o = true ->
+  disjoint_tables inG (h ++ [o]) = true ->
+  safe_history (h ++ [o]) = true -> safe_history (proj inG (h ++ [o])) = true ->
+  snd (step (run init h) o) = snd (step (run init (defs_all (proj inG h))) o).
+Proof.
+  intros Ho Hd Hs Hp.
+  pose proof (frame inG (h ++ [o]) Hd Hs Hp) as F.
+  rewrite run_out_app, (outs_in_app inG h o _ _ (run_out_length init h) Ho) in F.
+  rewrite (proj_app inG h o Ho), run_out_app in F.
+  apply app_inj_tail in F. destruct F as [_ F]. rewrite F.
+  rewrite (proj_app inG h o Ho) in Hp. exact (transparent _ _ Hp).
+Qed.
+
+Lemma needed_example :
+  op_in g_frame (last h_frame o_safe) = true /\
+  disjoint_tables g_frame h_frame = true /\ safe_history h_frame = true /\ safe_history (proj g_frame h_frame) = true.
+Proof. vm_compute. repeat split. Qed.
